@@ -106,8 +106,16 @@ def run(ctx):
                   found=show(rvs[0], maxdepth=3) if rvs else None)
         for m in util.INVERSE_METHODS:
             b = prog.trait_impl_method(w, 'Kinematics', m)
+            if b is None:
+                ctx.violation('R08.4', '%s/%s' % (w, m), '', w, 'no body found for this solver entry point (neither an override nor a provided trait method)')
+                continue
             ctx.fn(b)
             vv = util.virtual_calls(b)
+            if not vv:
+                # a provided trait method (used when the wrapper does not override it) reaches the solver through `self`
+                vv = [(bi, t, t['callee']['resolved'].split('::')[-1]) for bi, t in b.calls()
+                      if t['callee'].get('kind') == 'unresolved' and (t['callee'].get('trait') or '').endswith('Kinematics')
+                      and t['callee']['resolved'].split('::')[-1] in util.INVERSE_METHODS]
             if len(vv) != 1:
                 continue  # reported under C09
             inner = strip(b.call_term(vv[0][1], (vv[0][0], None)))
